@@ -75,7 +75,7 @@ def pd_DataFrame(eng, recv, args, node):
         return _new_frame(eng, a.n)
     from pyvc.state import DictObj
     if isinstance(a, DictObj):          # DataFrame(dict of dicts): one column per key
-        f = _new_frame(eng, z3.Int(fresh_name('rows')))
+        f = eng.fresh_of_type('dframe', 'frame')
         eng.st.assume(z3.Function('df_cols', I, I)(f.t) == a.nk)
         return f
     return _new_frame(eng, z3.Int(fresh_name('rows')))
